@@ -31,7 +31,7 @@ func init() {
 
 func genC15(r *simrt.Rand, tier string) (Cfg, *Program) {
 	pf := baseProfile()
-	pf.WKinds = []int{wkPlain}
+	pf.WKinds = []int{wkPlain, wkPlain, wkErr, wkResult} // (the adapter kinds exist for the plain worker only: generate maps them to in-memory kinds otherwise)
 	pf.QKinds = []int{qkStd, qkPrio, qkPers, qkPersPrio, qkDist}
 	pf.NQ = [2]int{2, 5}
 	pf.WrapPct = 100
